@@ -53,6 +53,17 @@ def build(case):
     cv = case['cv']
     if case.get('dflt'):          # the constructor's own default arguments
         return getattr(Env, c)()
+    if c == 'mc':
+        def entries(lst, flags, conv):
+            out = []
+            for e, sc in zip(lst, flags):
+                vals = [conv(x) for x in e]
+                out.append(vals[0] if sc and len(vals) == 1 else vals)
+            return out
+        sc = case['sc']
+        return Env(entries(case['lv'], sc['lv'], lambda x: num(x, fl)), entries(case['tm'], sc['tm'], lambda x: num(x, fl)),
+                   entries(case['cv'], sc['cv'], lambda x: curve(x, fl)), node(case['rel']), node(case['loop']),
+                   num(case['off'], fl))
     if c == 'new':
         tm = [num(x, fl) for x in case['tm']]
         cvs = [curve(x, fl) for x in cv]
@@ -148,6 +159,28 @@ def read_scgf(b):
 _counter = [0]
 
 
+def ugen_inputs_mc(env, ctl):
+    """EnvGen.kr(env, *ctl) for a multichannel envelope: the inputs of every EnvGen unit, in channel order"""
+    from sc3.synth.synthdef import SynthDef
+    from sc3.synth.ugens import EnvGen, Out
+    _counter[0] += 1
+
+    def graph():
+        Out.kr(0, EnvGen.kr(env, *ctl))
+    sd = SynthDef('c19m_%d' % _counter[0], graph)
+    d = read_scgf(sd.as_bytes())[0]
+    out = []
+    for u in d['ugens']:
+        if u['cls'] == 'EnvGen':
+            vals = []
+            for ui, o in u['inputs']:
+                if ui != -1:
+                    raise ValueError('non constant EnvGen input')
+                vals.append(d['consts'][o])
+            out.append(vals)
+    return out
+
+
 def ugen_inputs(env, ctl):
     """EnvGen.kr(env, *ctl) inside a SynthDef; the unit's inputs as numbers, read from the bytes"""
     from sc3.synth.synthdef import SynthDef
@@ -184,11 +217,23 @@ def observe(case):
         e.setdefault('ctl', [])
         e['off'] = 0
         if err is not None:
-            e['r'] = {'k': 'exc', 'v': [], 'x': err}
+            e['r'] = {'k': 'exc', 'v': [], 'vv': [], 'x': err}
             out.append(e)
             continue
         try:
-            if e['n'] == 'fmt':
+            if case['c'] == 'mc':
+                if e['n'] == 'fmt':
+                    vv = [[fix(x) for x in ch] for ch in env._envgen_format()]
+                elif e['n'] == 'ugen':
+                    vv = [[fix(x) for x in ch] for ch in ugen_inputs_mc(env, [num(x, fl) for x in e['ctl']])]
+                elif e['n'] == 'at':
+                    t = e['t']
+                    r = env._at(t // 64 if t % 64 == 0 and not fl else t / 64)
+                    vv = [[fix(x)] for x in (r if isinstance(r, list) else [r])]
+                else:
+                    raise AssertionError(e['n'])
+                e['r'] = {'k': 'ok', 'v': [], 'vv': vv, 'x': ''}
+            elif e['n'] == 'fmt':
                 f = env._envgen_format()
                 if len(f) != 1:
                     raise ValueError('multichannel')
@@ -206,7 +251,7 @@ def observe(case):
         except AssertionError:
             raise
         except Exception as ex:
-            e['r'] = {'k': 'exc', 'v': [], 'x': type(ex).__name__}
+            e['r'] = {'k': 'exc', 'v': [], 'vv': [], 'x': type(ex).__name__}
         out.append(e)
     tr = dict(case)
     tr['ev'] = out
